@@ -318,6 +318,11 @@ func (sc *C12Scenario) Execute(t *testing.T) *core.Outcome {
 	out.Rep = rep
 	if out.HarnessErr == "" {
 		out.HarnessErr = herr
+		if call, hung := storeHang(rep); hung {
+			out.HarnessErr = ""
+			out.V("store-call-never-returned", "a call into the store did not return although nothing else was runnable and a minute of simulated time had passed: %s", call)
+			return out
+		}
 	}
 	if rep == nil || out.HarnessErr != "" {
 		return out
